@@ -415,10 +415,19 @@ impl RandomDirector {
         let plen = self.rng.gen_range(0..=self.p.payload_max);
         let payload: Vec<u8> = (0..plen).map(|_| self.rng.r#gen()).collect();
         let mut props = Vec::new();
-        if self.chance(0.3) {
-            props.push(Prop { id: 0x08, n: 0, s: format!("re/{}", self.broker.msg_n).into_bytes(), t: vec![] });
+        if self.chance(0.4) {
+            // request/response: response topic and correlation data of assorted sizes, anywhere in
+            // the property list (possibly correlation data first, or without a response topic)
+            let tl = self.pick(&[1usize, 3, 4, 5, 8, 9, 16, 17, 40]);
+            let mut rt = format!("r{}", self.broker.msg_n).into_bytes();
+            rt.resize(tl.max(rt.len()), b'x');
+            if self.chance(0.85) {
+                props.push(Prop { id: 0x08, n: 0, s: rt, t: vec![] });
+            }
             if self.chance(0.7) {
-                props.push(Prop { id: 0x09, n: 0, s: vec![1, 2, 3, self.broker.msg_n as u8], t: vec![] });
+                let cl = self.pick(&[0usize, 1, 2, 3, 4, 5, 8, 9, 16, 17, 30]);
+                let cd: Vec<u8> = (0..cl).map(|_| self.rng.r#gen()).collect();
+                props.push(Prop { id: 0x09, n: 0, s: cd, t: vec![] });
             }
         }
         if self.chance(0.2) {
@@ -429,6 +438,11 @@ impl RandomDirector {
         }
         if self.chance(0.1) {
             props.push(Prop { id: 0x01, n: 1, s: vec![], t: vec![] });
+        }
+        // any order
+        for i in (1..props.len()).rev() {
+            let j = self.rng.gen_range(0..=i);
+            props.swap(i, j);
         }
         let mut id = 0;
         if qos > 0 {
